@@ -67,41 +67,44 @@ theorem good_pushItem {s : St} {b : Nat} (hg : Good s) (hb : b < s.batches.lengt
       have : ¬ j = s.items.length := by omega
       simp [this, y1]; omega
 
+theorem counts_pushItem (s : St) (b p : Nat) (sp src : Option Nat) (lk : Option Link) :
+    CountsOk s (s.pushItem b p sp lk) [.created s.items.length b src] := by
+  have hl := law_pushItem s b p sp src lk
+  refine ⟨fun i hi => ?_, fun c _ => ?_⟩
+  · obtain ⟨x, y⟩ := hl i
+    refine ⟨x, ?_⟩
+    rw [y]
+    simp only [pushItem_ilen] at hi ⊢
+    by_cases c : s.items.length ≤ i <;> simp [c, hi]
+  · simp only [pushItem_bout]
+    cases s.bout c <;> simp [announceCount]
+
 /-- the observation of an item constructed on a pending batch b is accepted -/
-theorem created_ok {s : St} {b : Nat} (hg : Good s) (hb : b < s.batches.length) (hp : s.bout b = none)
-    (op : Op) (p : Nat) (sp : Option Nat) (lk : Option Link)
+theorem created_ok {rx : Bool} {s : St} {b : Nat} (hg : Good s) (hb : b < s.batches.length) (hp : s.bout b = none)
+    (op : Op) (p : Nat) (sp : Option Nat) (lk : Option Link) (hq : fate s op = .quiet)
     (h1 : opClause s ⟨op, .created s.items.length, [.created s.items.length b none], s.pushItem b p sp lk⟩ = none) :
-    specStep s ⟨op, .created s.items.length, [.created s.items.length b none], s.pushItem b p sp lk⟩ = none := by
-  refine specStep_none h1 ?_ (by simp [Ev.isAnnounce]) (ext_pushItem s b p sp lk) (good_pushItem hg hb hp p sp lk)
+    specStep rx s ⟨op, .created s.items.length, [.created s.items.length b none], s.pushItem b p sp lk⟩ = none := by
+  refine specStep_none h1 (by simp [fateClause, fateChecks, firstFail, hq, slotOk, Ev.isCreated]) ?_ (by simp [Ev.isAnnounce])
+    (by simp [afterAnnounceOk, List.dropWhile, Ev.isAnnounce]) (counts_pushItem s b p sp none lk)
+    (ext_pushItem s b p sp lk) (good_pushItem hg hb hp p sp lk)
   intro ev hev
   simp only [List.mem_singleton] at hev
   subst hev
   simp [evClause, pushItem_ibatch, hp]
 
-theorem pushItem_last (s : St) (b p : Nat) (sp : Option Nat) (lk : Option Link) :
-    (s.pushItem b p sp lk).items[s.items.length]? =
-      some { batch := b, payload := p, spawn := sp, link := lk, out := none } := by
-  simp [St.pushItem]
-
-theorem pushItem_last' (s : St) (b p : Nat) (sp : Option Nat) (lk : Option Link)
-    (h : s.items.length < (s.pushItem b p sp lk).items.length) :
-    (s.pushItem b p sp lk).items[s.items.length]'h =
-      { batch := b, payload := p, spawn := sp, link := lk, out := none } := by
-  simp [St.pushItem]
-
-theorem step_ok_add (scripts : List Script) (s : St) (hg : Good s) (p : Nat) (sp : Option Nat) (lk : Option Link) :
-    specStep s (observe scripts s (.add p sp lk)).2 = none := by
+theorem step_ok_add {rx : Bool} (scripts : List Script) (s : St) (hg : Good s) (p : Nat) (sp : Option Nat)
+    (lk : Option Link) : specStep rx s (observe scripts s (.add p sp lk)).2 = none := by
   simp only [observe, step, newItemOn_pending hg.1 hg.2.1]
-  apply created_ok hg hg.1 hg.2.1 _ _ _ lk
-  simp [opClause, pushItem_last, pushItem_last']
+  apply created_ok hg hg.1 hg.2.1 _ _ _ lk rfl
+  simp [opClause]
 
-theorem step_ok_addTo (scripts : List Script) (s : St) (hg : Good s) (b p : Nat) :
-    specStep s (observe scripts s (.addTo b p)).2 = none := by
+theorem step_ok_addTo {rx : Bool} (scripts : List Script) (s : St) (hg : Good s) (b p : Nat) :
+    specStep rx s (observe scripts s (.addTo b p)).2 = none := by
   simp only [observe, step]
   cases e : s.batches[b]? with
   | none =>
     simp only
-    exact specStep_noop hg (by simp [opClause, batches_none e])
+    exact specStep_noop hg rfl (by simp [opClause, batches_none e])
   | some B =>
     have ⟨hb, hbo, _⟩ := batches_some e
     simp only
@@ -109,53 +112,53 @@ theorem step_ok_addTo (scripts : List Script) (s : St) (hg : Good s) (b p : Nat)
     | none =>
       have hp : s.bout b = none := by rw [hbo, hB]
       simp only [newItemOn_pending hb hp]
-      apply created_ok hg hb hp
+      apply created_ok hg hb hp _ _ _ _ rfl
       have : ¬ s.batches.length ≤ b := by omega
-      simp [opClause, pushItem_last, pushItem_last', this, hp]
+      simp [opClause, this, hp]
     | some o =>
       have hp : (s.bout b).isSome := by rw [hbo, hB]; rfl
       simp only [newItemOn_finished hp]
       have : ¬ s.batches.length ≤ b := by omega
-      exact specStep_noop hg (by simp [opClause, this, hp])
+      exact specStep_noop hg rfl (by simp [opClause, this, hp])
 
-theorem step_ok_isFlushed (scripts : List Script) (s : St) (hg : Good s) (b : Nat) :
-    specStep s (observe scripts s (.isFlushed b)).2 = none := by
+theorem step_ok_isFlushed {rx : Bool} (scripts : List Script) (s : St) (hg : Good s) (b : Nat) :
+    specStep rx s (observe scripts s (.isFlushed b)).2 = none := by
   simp only [observe, step]
   cases e : s.batches[b]? with
-  | none => exact specStep_noop hg (by simp [opClause, batches_none e])
+  | none => exact specStep_noop hg rfl (by simp [opClause, batches_none e])
   | some B =>
     have ⟨hb, hbo, _⟩ := batches_some e
     have : ¬ s.batches.length ≤ b := by omega
-    exact specStep_noop hg (by simp [opClause, this, hbo])
+    exact specStep_noop hg rfl (by simp [opClause, this, hbo])
 
-theorem step_ok_isCancelled (scripts : List Script) (s : St) (hg : Good s) (b : Nat) :
-    specStep s (observe scripts s (.isCancelled b)).2 = none := by
+theorem step_ok_isCancelled {rx : Bool} (scripts : List Script) (s : St) (hg : Good s) (b : Nat) :
+    specStep rx s (observe scripts s (.isCancelled b)).2 = none := by
   simp only [observe, step]
   cases e : s.batches[b]? with
-  | none => exact specStep_noop hg (by simp [opClause, batches_none e])
+  | none => exact specStep_noop hg rfl (by simp [opClause, batches_none e])
   | some B =>
     have ⟨hb, hbo, _⟩ := batches_some e
     have : ¬ s.batches.length ≤ b := by omega
-    exact specStep_noop hg (by simp [opClause, this, hbo])
+    exact specStep_noop hg rfl (by simp [opClause, this, hbo])
 
-theorem step_ok_isEmpty (scripts : List Script) (s : St) (hg : Good s) (b : Nat) :
-    specStep s (observe scripts s (.isEmpty b)).2 = none := by
+theorem step_ok_isEmpty {rx : Bool} (scripts : List Script) (s : St) (hg : Good s) (b : Nat) :
+    specStep rx s (observe scripts s (.isEmpty b)).2 = none := by
   simp only [observe, step]
   cases e : s.batches[b]? with
-  | none => exact specStep_noop hg (by simp [opClause, batches_none e])
+  | none => exact specStep_noop hg rfl (by simp [opClause, batches_none e])
   | some B =>
     have ⟨hb, _, hbi⟩ := batches_some e
     have : ¬ s.batches.length ≤ b := by omega
-    exact specStep_noop hg (by simp [opClause, this, hbi])
+    exact specStep_noop hg rfl (by simp [opClause, this, hbi])
 
-theorem step_ok_itemComputed (scripts : List Script) (s : St) (hg : Good s) (i : Nat) :
-    specStep s (observe scripts s (.itemComputed i)).2 = none := by
+theorem step_ok_itemComputed {rx : Bool} (scripts : List Script) (s : St) (hg : Good s) (i : Nat) :
+    specStep rx s (observe scripts s (.itemComputed i)).2 = none := by
   simp only [observe, step]
   cases e : s.items[i]? with
-  | none => exact specStep_noop hg (by simp [opClause, List.getElem?_eq_none_iff.mp e])
+  | none => exact specStep_noop hg rfl (by simp [opClause, List.getElem?_eq_none_iff.mp e])
   | some it =>
     have ⟨hi, hio, _⟩ := items_some e
     have : ¬ s.items.length ≤ i := by omega
-    exact specStep_noop hg (by simp [opClause, this, hio])
+    exact specStep_noop hg rfl (by simp [opClause, this, hio])
 
 end AsynqModel.Batching
